@@ -6,6 +6,7 @@
   bodies replace `unfold f` by `rw [f_v0]; unfold V0.f`.
 -/
 import QV.Proofs.Writer
+import QV.Proofs.WriterRecords
 
 namespace QV.Writer
 open QV QV.Wire
@@ -440,5 +441,25 @@ theorem finishWithMac_v0 (macFn : Tsig → List UInt8 → List UInt8) :
                   | none => rfl
                   | some e =>
                     simp only [M.bind_apply, M.modify_apply]
+
+/-- the component list of every (class, type), as a decision list -/
+theorem V0.componentTypes_arms (cls ty : Nat) :
+    V0.componentTypes cls ty =
+      if ty = 2 ∨ ty = 3 ∨ ty = 4 ∨ ty = 5 ∨ ty = 7 ∨ ty = 8 ∨ ty = 9 ∨ ty = 12 then [.compressibleName]
+      else if ty = 1 ∧ cls = 3 then [.uncompressibleName]
+      else if ty = 6 then [.compressibleName, .compressibleName]
+      else if ty = 14 then [.compressibleName, .compressibleName]
+      else if ty = 15 then [.fixedLen 2, .compressibleName]
+      else if ty = 33 ∧ cls = 1 then [.fixedLen 6, .uncompressibleName]
+      else [] := by
+  unfold V0.componentTypes
+  rw [componentTypes_eq, lookup_arms]
+  repeat' split
+  all_goals decide
+
+theorem rdataNames_v0 (cls ty : Nat) (rd : List UInt8) :
+    rdataNames cls ty rd = compNames (V0.componentTypes cls ty) rd := by
+  unfold rdataNames
+  rw [componentTypes_v0]
 
 end QV.Writer
